@@ -282,8 +282,10 @@ func (l *WAL) Switch() (*WalFiles, error) {
 	for i := 0; i < l.partitionNum; i++ {
 		go func(lw *LogWriter) {
 			files, err := lw.Switch()
-			errs.Dispatch(err)
+			// record the files before the partition is reported done: Err() returns as soon as every
+			// partition has dispatched, and the caller removes exactly the files recorded by then
 			walFiles.Add(files...)
+			errs.Dispatch(err)
 		}(&l.logWriter[i])
 	}
 
